@@ -24,12 +24,14 @@ Reading used here.
     snapshot (a state dump: dsstate.Marshal/Unmarshal, pins in protobuf inside msgpack entries)  as proto;
     msgpack, json   nothing.
   `Mode` is NOT in the list: the statement does not name it.
-* Well-formed (`wfRt`): what constructors and the REST layer guarantee and the statement
-  presupposes — required CIDs defined and peer IDs non-empty (optional ones are listed by
-  name here, independently of the struct tags), replication factors and depth within int32,
-  a pin type that is one of the PinType constants, a mode that is recursive or direct, a
-  tracker status that is one named status, origins with a /p2p/ component, add parameters
-  the server accepts. Strings are valid UTF-8 (guaranteed by the generator).
+* Well-formed (`wfRt`): only what the value spaces of the types and the code that builds the
+  values guarantee — replication factors and depth within int32 (the .proto field types), a pin
+  type that is one of the PinType constants, a mode that is recursive or direct, a tracker
+  status over the known status bits, origins with a /p2p/ component (REST/FromQuery refuse
+  others), add parameters the server accepts, no api.Multiaddr wrapping nothing (its encoders
+  refuse it). Strings are valid UTF-8 (guaranteed by the generator). NOT assumed: that CIDs are
+  defined or peer IDs non-empty — `cid.Undef`, a pointer to it, and the empty peer ID are values
+  the code produces (zero-valued RPC replies, the first shard's reference) and nothing rejects.
 * The string forms: a TrackerStatus (single or any filter of known statuses), PinMode and
   PinType value survives String → FromString and MarshalJSON → UnmarshalJSON.
 * The callers' own equality is an equivalence on pins held in distinct variables and says
@@ -102,13 +104,10 @@ def typedSame (rec : String) (f : Fmt) (inp out : KVs) : Bool :=
 
 /-! ## well-formedness -/
 
-def optionalPeer (rec path : String) : Bool := (rec == "IPFSID" && path == "ID") || path == "IPFS.ID"
-def optionalCid (rec path : String) : Bool := rec == "NodeWithMeta" || ["PinUpdate", "Key"].contains (lastSeg path)
-
 def int32Tok (tok : String) : Bool := match tok.toInt? with | some i => inInt32 i | none => false
 
-def namedStatus (tok : String) : Bool :=
-  match tok.toNat? with | some st => (statusNames.map (·.1)).contains st | none => false
+def knownStatusTok (tok : String) : Bool :=
+  match tok.toNat? with | some st => st &&& statusMask == st | none => false
 
 def isPinPath (rec path : String) (field : String) : Bool :=
   (rec == "Pin" && path == field) || (rec == "LogOp" && path == "Cid." ++ field) ||
@@ -119,10 +118,10 @@ def wfField (rec : String) (kv : String × String) : Bool :=
   let tok := kv.2
   let seg := lastSeg path
   let elems := tokElems tok
-  (optionalPeer rec path || !elems.contains "p-") &&
-  (optionalCid rec path || !elems.contains "c-") &&
+  -- an api.Multiaddr wrapping no address is refused by its own encoders ("null multiaddresses not allowed")
+  !elems.contains "m-" &&
   (seg != "Mode" || tok == "0" || tok == "1") &&
-  (seg != "Status" || namedStatus tok) &&
+  (seg != "Status" || knownStatusTok tok) &&
   (!(["ReplicationFactorMin", "ReplicationFactorMax", "MaxDepth"].contains seg) || int32Tok tok) &&
   (!(isPinPath rec path "Type") || ["1", "2", "4", "8", "16"].contains tok) &&
   (seg != "Origins" || elems.all (·.startsWith "mp")) &&
